@@ -133,7 +133,7 @@ def main(ctx):
     ctx.design("Diff", "Diff_bug.cfg", expect_violation="BugOK", workers=4, heap="4g")
     ctx.design("Diff", "Diff_rich.cfg", workers=4, heap="4g")
     # (b) TLC-generated behaviours
-    cases = tlc_cases(ctx, 3, 1, False, 0)
+    cases = tlc_cases(ctx, 3, 1, False, 14 if ctx.quick else 0)
     # every leaf kind incl. integers beyond 2^53 / at the ends of int64 with their near neighbours (rich alphabet)
     cases += tlc_cases(ctx, 2, 2, True, 0 if not ctx.quick else 8)
     ctx.cov["model_pairs_exhaustive"] = len(cases)
